@@ -360,7 +360,7 @@ func (fr *Frame) doCall(c ssa.CallInstruction, st *State, args []Term, recv *Ter
 			if pn == "" {
 				pn = fmt.Sprintf("arg%d", i)
 			}
-			fr.safety(st, c, "nil-arg", callShort(c)+"("+pn+")", fmt.Sprintf("(not (= %s 0))", args[i].S))
+			fr.obligationOnly(st, c, "nil-arg", callShort(c)+"("+pn+")", fmt.Sprintf("(not (= %s 0))", args[i].S))
 		}
 	}
 	if ci.contract != nil {
